@@ -20,6 +20,42 @@ STATE = {
 }
 
 
+class Hang(BaseException):
+    """raised by the native-run deadline: the code under test did not come back (C08: "or hang"; C03/C16: "terminates")"""
+
+
+NATIVE_DEADLINE = float(os.environ.get('VT_NATIVE_DEADLINE', '90'))
+
+
+class _deadline:
+    """wall-clock limit for ONE native run of a body (warm-up inputs and per-path witnesses), main thread only"""
+
+    def __init__(self, seconds):
+        self.seconds = seconds
+        self.armed = False
+
+    def __enter__(self):
+        import signal
+        import threading
+        if self.seconds > 0 and threading.current_thread() is threading.main_thread():
+            def on_alarm(signum, frame):
+                raise Hang()
+            try:
+                self.old = signal.signal(signal.SIGALRM, on_alarm)
+                signal.setitimer(signal.ITIMER_REAL, self.seconds)
+                self.armed = True
+            except (ValueError, OSError):
+                self.armed = False
+        return self
+
+    def __exit__(self, *a):
+        if self.armed:
+            import signal
+            signal.setitimer(signal.ITIMER_REAL, 0)
+            signal.signal(signal.SIGALRM, self.old)
+        return False
+
+
 def _log(rec):
     f = STATE['log']
     if f is None:
@@ -119,8 +155,11 @@ def run(body, args) -> bool:
                 STATE['sym_fail'] += 1
             return sym_ok
         try:
-            nok, ntag, ndg = body(tuple(vals))
+            with _deadline(getattr(body, 'native_deadline', NATIVE_DEADLINE)):
+                nok, ntag, ndg = body(tuple(vals))
             nok = bool(nok)
+        except Hang:
+            nok, ntag, ndg = False, 'hang', f'no answer within {getattr(body, "native_deadline", NATIVE_DEADLINE):.0f} s on a native run'
         except Exception as e:  # noqa: BLE001
             nok, ntag, ndg = False, 'native-exception', repr(e)
         STATE['witnessed'] += 1
@@ -145,8 +184,14 @@ def run(body, args) -> bool:
 
 def warm(body, args):
     """Native warm-up run at import: fills caches; a failing warm-up input is a native counterexample."""
+    if STATE.get('warm_hang'):
+        return True          # one hanging warm-up input is enough: the others would each wait for the deadline again
     try:
-        ok, tag, dg = body(tuple(args))
+        with _deadline(getattr(body, 'native_deadline', NATIVE_DEADLINE)):
+            ok, tag, dg = body(tuple(args))
+    except Hang:
+        ok, tag, dg = False, 'hang', f'no answer within {getattr(body, "native_deadline", NATIVE_DEADLINE):.0f} s on a native run'
+        STATE['warm_hang'] = True
     except Exception as e:  # noqa: BLE001
         ok, tag, dg = False, 'native-exception', repr(e)
     STATE['warm'] = STATE.get('warm', 0) + 1
